@@ -36,6 +36,7 @@ type c15case struct {
 	Debug    bool     `json:"debug_mode,omitempty"`
 	Reg      bool     `json:"customs_registered,omitempty"` // custom levels treated as Error/Warn/Info/Debug are registered first
 	TimeCfg  string   `json:"time_cfg,omitempty"`           // time settings of the logger behind the handler: utc | local | layout-utc (each disagrees with the local-time flag)
+	Ctx      string   `json:"ctx,omitempty"`                // the context handed to the handler / logger: "" Background | cancelled | deadline-exceeded | with-values (it never matters by the statement)
 	WriterOp string   `json:"writer_op,omitempty"`          // L4x: what is done to the writers of the logger behind the handler after the derivation
 	Level2   int      `json:"level2,omitempty"`             // L4c: level of the logger at the time of the second derivation
 	Format2  string   `json:"format2,omitempty"`            // L4c: format of the logger at the time of the second derivation
@@ -335,10 +336,26 @@ func c15levelMatches(format string, got string, want slog.Level) bool {
 func c15eval(cas c15case) *Violation {
 	mk := func(clause, detail string) *Violation {
 		sig := fmt.Sprintf("C15|%s|%s|via=%s|format=%s|slog_level=%d|logger_level=%s|attr=%s|chain=%v|opt_level=%d|bridge=%d|msg=%s|reg=%v|format2=%s|level2=%d|time=%s", clause, cas.Layer, cas.Via, cas.Format, cas.SlogLvl, levelName(slog.Level(cas.LogLevel)), cas.Attr, cas.Chain, cas.OptLevel, cas.BridgeLv, cas.MsgQ, cas.Reg, cas.Format2, cas.Level2, cas.TimeCfg)
+		if cas.Ctx != "" {
+			sig += "|ctx=" + cas.Ctx
+			detail += " [context: " + cas.Ctx + "]"
+		}
 		return mkViolation(sig, clause, detail, cas)
 	}
 	w := c15new(cas)
 	ctx := context.Background()
+	switch cas.Ctx {
+	case "cancelled":
+		c2, cancel := context.WithCancel(ctx)
+		cancel()
+		ctx = c2
+	case "deadline-exceeded":
+		c2, cancel := context.WithDeadline(ctx, time.Unix(1, 0))
+		defer cancel()
+		ctx = c2
+	case "with-values":
+		ctx = context.WithValue(context.WithValue(ctx, "request_id", "r-1"), c15ctxKey{}, 7)
+	}
 	msg := "the message"
 	if cas.MsgQ != "" {
 		msg, _ = strconv.Unquote(cas.MsgQ)
@@ -899,6 +916,8 @@ func c15eval(cas c15case) *Violation {
 var c15last string
 var c15unreachable int64
 
+type c15ctxKey struct{}
+
 func c15cases(thorough bool, emit func(c15case)) {
 	formats := []string{"json", "logfmt", "color"}
 	logLevels := []slog.Level{slog.OffLevel, slog.ErrorLevel, slog.WarnLevel, slog.InfoLevel, slog.DebugLevel, slog.TraceLevel, slog.AlwaysLevel, slog.PanicLevel}
@@ -1060,6 +1079,7 @@ func init() {
 		layers := map[string]int64{}
 		c15cases(c.Thorough(), func(cas c15case) {
 			n++
+			cas.Ctx = []string{"", "cancelled", "with-values", "deadline-exceeded"}[(n/16)%4] // rotates independently of the shard (n%16)
 			if !c.Mine(n) || c.Expired() {
 				return
 			}
